@@ -353,8 +353,41 @@ def refusals(ctx):
                 "sub_path is cut out of the tour's own nodes between the positions of the segment's ends")
 
 
+def gap_test_for_both_kinds_of_tour(ctx, rid="R2"):
+    """the gap left by a removal is tested for dummy tours as for real ones (a dummy tour is a path, too: override_reassign takes
+    segments out of dummy tours).  Decided by following the paths of the function with the is_dummy flag fixed."""
+    from .. import optabs
+    key = T("check_if_sequence_is_removable")
+    o, fd = ctx.require_fn("%s.gap-test-reached-for-dummy-and-real-tours" % rid, "T12+abs", key,
+                           "the can_reach test across the gap is on a path of check_if_sequence_is_removable whether or not the tour is a dummy tour")
+    if fd is None:
+        return
+    cr = calls_to(fd, N("can_reach"))
+    if len(cr) != 1:
+        ctx.undecided(o, "expected one can_reach call, found %d" % len(cr))
+        return
+    reached = {}
+    for val, what in (("T", "dummy"), ("F", "real")):
+        it = optabs.OptInterp(fd.body, {}, watch=[cr[0].id])
+        it.field_values = {"field:%s.is_dummy" % TOUR: val}
+        try:
+            it.run()
+        except Exception:
+            ctx.undecided(o, "paths not explored")
+            return
+        if not it.paths or any(r.get("gave_up") for r in it.records):
+            ctx.undecided(o, "paths not explored completely for %s tours" % what)
+            return
+        reached[what] = sum(1 for p in it.paths if p)
+    miss = [w for w, n in reached.items() if n == 0]
+    ctx.decide(o, not miss, "reached on %s" % ", ".join("%d path(s) for %s tours" % (n, w) for w, n in reached.items()),
+               "for %s tours no path of check_if_sequence_is_removable reaches the can_reach test: a segment can be taken out although the "
+               "nodes around it cannot follow each other, and the tour is no longer a path" % " and ".join(miss), loc=cr[0].line())
+
+
 def gap_guard(ctx):
     """the reachability test across the gap is skipped only when there is no node in front / behind"""
+    gap_test_for_both_kinds_of_tour(ctx)
     key = T("check_if_sequence_is_removable")
     o, fd = ctx.require_fn("R2.gap-test-guard", "T12", key,
                            "the can_reach test across the gap is performed whenever a node exists in front of and behind the removed block")
